@@ -1,5 +1,5 @@
 #!/bin/bash
-# seeded_matrix.sh [tier] : apply every seeded change to /repo in turn, run the check of the property it breaks, undo it.
+# seeded_matrix.sh [tier] (env SEED=n for another seed): apply every seeded change to /repo in turn, run the check of the property it breaks, undo it.
 # Must not run while anything else uses /repo.
 TIER=${1:-quick}
 cd /verif
@@ -9,7 +9,7 @@ for d in seeded/*/; do
   name=$(basename $d)
   prop=${name%%_*}
   if ! git -C /repo apply /verif/$d/patch.diff 2>/dev/null; then echo "$name: PATCH DOES NOT APPLY"; continue; fi
-  out=$(timeout 3600 ./check $prop --tier $TIER 2>&1); rc=$?
+  out=$(timeout 3600 ./check $prop --tier $TIER ${SEED:+--seed $SEED} 2>&1); rc=$?
   git -C /repo checkout -- .
   first=$(echo "$out" | grep -A1 "^VIOLATION" | grep -v "^VIOLATION\|^--" | head -1 | cut -c1-220)
   kind=$(echo "$out" | grep "^VIOLATION" | head -1 | grep -q "no-failing-input-found" && echo "tie-only" || echo "input")
